@@ -8,3 +8,17 @@ package snowflake_client
 //@ guarded WebRTCPeer.lastReceive by mu
 //@ guarded Peers.activePeers by collectLock
 //@ guarded BrokerChannel.natType by lock
+//
+// ---- local addresses never leave the process (C08) ----
+// Unless local addresses are explicitly kept, the description that is serialised for the broker is the caller's
+// description with its SDP passed through util.StripLocalAddresses (exactly once, on the original text).
+//@ ghost var strippedSDP string
+//@ func (bc *BrokerChannel) Negotiate(offer *webrtc.SessionDescription) (answer *webrtc.SessionDescription, err error)
+//@   props C08
+//@   flag nosafety
+//@   requires bc != nil && offer != nil
+//@   at call StripLocalAddresses assert {strips-the-original} arg0 == entry(offer.SDP)
+//@   after call StripLocalAddresses ghost strippedSDP = ret0
+//@   at call SerializeSessionDescription assert {sends-the-stripped-text} !bc.keepLocalAddresses ==> calls(StripLocalAddresses) == 1 && arg0.SDP == strippedSDP
+//@   at call SerializeSessionDescription assert {keeps-the-type} arg0.Type == entry(offer.Type)
+//@   at call SerializeSessionDescription assert {kept-only-on-request} bc.keepLocalAddresses ==> arg0 == entry(offer)
